@@ -111,7 +111,7 @@ pub fn run(ctx: &mut Ctx) {
     let reg = pki.iaca_registry();
     let live = Live::new(1, &pki, &mut rng, reg.clone(), &["family_name", "age_over_18"]);
     let keys = hostile_keys();
-    let budget = if ctx.thorough { 40 } else { 1 };
+    let budget = if ctx.thorough { 400 } else { 1 };
 
     // --- 0. the modelled own partial operations, systematically: CoseKey -> EncodedPoint / shared secret
     for (name, kv) in &keys {
